@@ -44,15 +44,29 @@ def analyse_key_fn(ctx, inst, kf):
     P = ctx.P
     body = kf.body
     exits = common.exit_sites(P, kf)
-    if len(exits) != 1 or exits[0][3][0] != "call" or common.last_seg(exits[0][3][3]) != "concat":
-        inst.fail("C16.R3:shape", kf.path, kf.span, "key is not built as a single concatenation of components: unrecognised-idiom")
+    comps = None
+    if len(exits) == 1 and exits[0][3][0] == "call" and common.last_seg(exits[0][3][3]) == "concat":
+        arr = exits[0][3][4][0]
+        if arr[0] == "agg" and arr[1] == "array":
+            comps = [fv for _, fv in arr[3]]
+    elif len(exits) == 1:
+        # a Vec<u8> filled by push / extend_from_slice in straight-line code
+        vb = common.vec_build(P, kf, exits[0][3])
+        if vb is not None and common.is_empty_vec_base(vb[0]) and vb[1] and all(op in ("push", "extend_from_slice", "extend") and not lp for op, cv_, lp in vb[1]):
+            comps = []
+            for op, cv_, lp in vb[1]:
+                x = cv_[4][1]
+                if op == "push":
+                    # one byte: same shape as `&[x][..]`
+                    comps.append(("call", kf.path, cv_[2], "core::array::<impl core::ops::Index<I> for [T; N]>::index", (("agg", "array", "array", ((0, x),)), ("const", "zst", "RangeFull"))))
+                else:
+                    if x[0] == "call" and isinstance(x[3], str) and common.last_seg(x[3]) in ("to_be_bytes", "to_le_bytes"):
+                        comps.append(("call", kf.path, cv_[2], "core::array::<impl core::ops::Index<I> for [T; N]>::index", (x, ("const", "zst", "RangeFull"))))
+                    else:
+                        comps.append(x)
+    if comps is None:
+        inst.fail("C16.R3:shape", kf.path, kf.span, "key is neither a concatenation of components nor a byte vector filled by push/extend_from_slice: unrecognised-idiom")
         return
-    cc = exits[0][3]
-    arr = cc[4][0]
-    if arr[0] != "agg" or arr[1] != "array":
-        inst.fail("C16.R3:shape", kf.path, kf.span, "concat argument is not an array literal of components: unrecognised-idiom")
-        return
-    comps = [fv for _, fv in arr[3]]
 
     def strip_mut(v):
         while v[0] == "mut":
